@@ -16,7 +16,8 @@ MAX_TASK_S = {"quick": 90, "thorough": 900}
 KNOWN_SIG = "C12/partB/pool-chunk-rng-replay"
 ASSUMPTIONS = [
     "exact real arithmetic; the hidden game of draw d is a vector of fresh variables v(d), superadditive (strictly, in Part B: generic games, "
-    "otherwise degenerate additive cases fork at every reset and make different repetitions trivially equal)",
+    "otherwise degenerate additive cases fork at every reset and make different repetitions trivially equal); the 'anyclass' tasks of Part A "
+    "put NO constraint on the hidden games (bounds may cross, gaps may be negative)",
     "the instance's random generator is a draw counter carried inside the real ModelInstance (copied when the instance is copied)",
     "multiprocessing.Pool replaced by the in-process model (CPython chunking rule, each chunk deep-copied as a whole = pickle semantics)",
     "random solver: random.Random replaced by an exhaustive nondeterministic choice (Part A)",
@@ -42,6 +43,11 @@ def tasks(tier, seed):
                     continue
                 out.append({"key": f"A/{solver}/R{R}/limit{limit}", "part": "A", "solver": solver, "R": R, "limit": limit, "P": 1, "n": 3,
                             "gap": rnd.choice(gaps if tier == "thorough" else gaps[:2])})
+    # hidden games of ANY class (the recorded gap may be negative when the bounds cross): the rows must still be the true gaps
+    for solver in ("largest", "greedy"):
+        for limit in (1, 2):
+            out.append({"key": f"A-anyclass/{solver}/R1/limit{limit}", "part": "A", "solver": solver, "R": 1, "limit": limit, "P": 1, "n": 3,
+                        "gap": "exploitability", "anyclass": True})
     for R in ((3, 6) if tier == "quick" else (3, 6, 8)):
         for P in ((1, 2, 4) if tier == "quick" else (1, 2, 3, 4, 16)):
             out.append({"key": f"B/largest/R{R}/P{P}", "part": "B", "solver": "largest", "R": R, "limit": 2, "P": P, "n": 3, "gap": "exploitability"})
@@ -61,6 +67,8 @@ def setup(params, inp, lg):
     ass = []
     for d in range(1, _ndraws(params) + 1):
         v = _draw(inp, d, n)
+        if params.get("anyclass"):
+            continue
         ass += F.strict_sa_constraints(v, n, lg) if params["part"] == "B" else F.sa_constraints(v, n, lg)
     return ass
 
